@@ -1,15 +1,15 @@
-SPECIFICATION MCSpec
+SPECIFICATION TableSpec
 CONSTANTS
  BNErrs = {"bnval", "bnptr"}
  Variant = "coded"
  MCTypes = {"aggregator", "prepare_aggregator", "attester"}
+ MCMain = "aggregator"
  MCIncl = {"proposer"}
- MCPKs = {"a"}
+ MCPKs = {"a", "b"}
  MCErrs = {"nil", "other"}
  MCRoots = {"x", "y"}
- MCN = 1
- MaxCalls = 3
-INVARIANTS SuccessIffFinal StuckStep ReasonOfStep Dependency Participation AnalysedOnce
-PROPERTIES MCOnlyAtDeadline MCLateDropped
-VIEW View
+ MCN = 2
+ MCSteps = {1}
+ MaxCalls = 0
+INVARIANTS SuccessIffFinal StuckStep ReasonOfStep Dependency Participation ObsSane
 CHECK_DEADLOCK FALSE
